@@ -46,7 +46,7 @@ import nfc.llcp.llc
 import nfc.snep
 
 from vlib import deppair as dp
-from vlib import p2p, vsched
+from vlib import vsched
 from vlib import ref_llcp as ref
 from vlib.engine import Leg, Violation, derive_seed, unexpected
 
@@ -138,8 +138,9 @@ def execute(case):
                       if k in KEYS and v is not None}
         if case[side].get("acm") is not None:
             opts[side]["acm"] = case[side]["acm"]
-    pair = p2p.Pair((), seed=case.get("seed", 0), opts_i=opts["i"],
-                    opts_t=opts["t"])
+    pair = dp.Pair((), seed=case.get("seed", 0), opts_i=opts["i"],
+                   opts_t=opts["t"], step_budget=150000)
+    o["busy"] = False
     try:
         s = pair.sched
         cv = vsched.VCondition()
@@ -257,18 +258,22 @@ def execute(case):
                         break
             return pred()
 
-        wait(lambda: len(o["snap"]) == 2 or pair.exc, 8.0)
+        try:
+            wait(lambda: len(o["snap"]) == 2 or pair.exc, 8.0)
+            if len(o["snap"]) == 2:
+                wait(lambda: running["n"] == 0 or pair.exc, 6.0)
+                # let queued datagrams drain through the run loops
+                s.sleep(0.08)
+            o["traffic_done"] = running["n"] == 0
+            pair.terminate["i"] = pair.terminate["t"] = lambda: True
+            end = s.now + 8.0
+            while s.now < end and not all(
+                    x in pair.result or x in pair.exc for x in ("i", "t")):
+                s.sleep(0.25)
+        except vsched.StepBudget:
+            o["busy"] = True
         o["connected"] = sorted(o["snap"])
-        if len(o["snap"]) == 2:
-            wait(lambda: running["n"] == 0 or pair.exc, 6.0)
-            # let queued datagrams drain through the run loops
-            s.sleep(0.08)
-        o["traffic_done"] = running["n"] == 0
-        pair.terminate["i"] = pair.terminate["t"] = lambda: True
-        end = s.now + 8.0
-        while s.now < end and not all(
-                x in pair.result or x in pair.exc for x in ("i", "t")):
-            s.sleep(0.25)
+        o.setdefault("traffic_done", False)
         o["exc"] = dict(pair.exc)
         o["result"] = dict(pair.result)
         o["log"] = [dict(e) for e in pair.air.log]
@@ -331,6 +336,10 @@ def judge(case, ctx):
             if e is not None:
                 flag(ctx, base, unexpected(
                     e, detail="connect() on side %s" % side))
+        if o["busy"]:
+            flag(ctx, base, Violation(
+                "no-termination", "scheduler step budget exhausted at %.3f s "
+                "virtual time: a thread loops without waiting" % o["vtime"]))
         if len(snap) != 2:
             flag(ctx, base, Violation(
                 "activation-failed", "controllers handed out on sides %r "
@@ -632,8 +641,9 @@ def pairwise_rows(rng):
 def enum_grid(tier, seed):
     rng = _random.Random(derive_seed(seed, PROPERTY, "grid", tier))
     if tier == "quick":
-        for row in pairwise_rows(rng):
-            yield grid_case(row, rng, traffic=True)
+        for _ in range(2):          # two independent covering arrays
+            for row in pairwise_rows(rng):
+                yield grid_case(row, rng, traffic=True)
         return
     for role, brs, lri, lrt, rwt, mi, mt in itertools.product(
             ["fixed", "i-auto"], range(3), range(4), range(4), range(15),
@@ -646,7 +656,7 @@ def enum_grid(tier, seed):
 LEGS = [
     Leg("grid", run=run, enum=enum_grid, exhaustive=True, shards_quick=8,
         shards_thorough=16,
-        rule="quick: greedy seeded pairwise-covering rows over role(3) x brs "
+        rule="quick: two greedy seeded pairwise-covering arrays over role(3) x brs "
              "x lri x lrt x rwt(15) x miu(8, each side) x lto(5, each side) "
              "x agf x lsc(4) (each side) x SNEP service bound (each side), "
              "DID {1, 7, 14} on every fifth row, with UI datagrams at MIU-1/MIU/MIU+1 and a "
@@ -654,8 +664,8 @@ LEGS = [
              "lri x lrt x rwt x miu{128,248,1000,2175}^2 = 23040 activations "
              "(other parameters seeded), one MIU-sized datagram each way; "
              "non-trivial = sides differ in miu, lr or lto, or brs > 0."),
-    Leg("random", run=run, gen=lambda tier: st_case(), quick=320,
-        thorough=8000, shards_quick=8, shards_thorough=16, nt_floor=0.5,
+    Leg("random", run=run, gen=lambda tier: st_case(), quick=1200,
+        thorough=16000, shards_quick=8, shards_thorough=16, nt_floor=0.5,
         rule="Hypothesis: every option present or omitted (defaults), miu "
              "128..2175, acm, roles fixed/auto, DID none/1..14, bound "
              "services, <= 6 datagrams around the peer's MIU, SNEP put of "
